@@ -1,5 +1,7 @@
 package main
 
+import "time"
+
 func simple(id, module, pkg string, shards int) *prop {
 	return &prop{id: id, module: module, pkg: pkg, level: "exploration",
 		runs: []runSpec{{name: "main", test: "^TestVerif" + id + "$", shards: shards}}}
@@ -13,6 +15,12 @@ func init() {
 	register(simple("C05", "kernel", "mm/vmm", 8))
 	register(simple("C06", "kernel", "mm/vmm", 8))
 	register(simple("C07", "kernel", "mm/vmm", 4))
+	register(&prop{id: "C08", module: "kernel", pkg: "sync", level: "exploration", perCase: 700 * time.Second, post: postLockHistories,
+		runs: []runSpec{
+			{name: "main", test: "^TestVerifC08$"},
+			{name: "racecalib", test: "^TestVerifC08Calib$", race: true, instr: true, calib: true},
+			{name: "race", test: "^TestVerifC08$", race: true, instr: true},
+		}})
 	register(simple("C10", "kernel", "multiboot", 8))
 	register(simple("C11", "kernel", "device/acpi/aml", 16))
 	register(simple("C12", "kernel", "device/acpi/aml", 16))
